@@ -522,6 +522,6 @@ PROP = C16()
 
 MANIFEST = dict(
     technique="Lean 4 proofs by induction (read loop over an abstract streaming hash, POSIX normpath, dict-assignment loop of the section reader, add_checksum histories) + decide on constants regenerated from the AST; differential run on real files, real TreeInfo loads and real Image objects",
-    text="C16_chunked/C16_compute: for an abstract streaming hash with the concatenation law, ANY content and ANY chunk size > 0 the read-until-empty loop returns the one-shot digest (chunk size and loop shape come from the source). C16_add/_absolute/_refusal/_invariant: the key is normpath(path), never absolute; absolute paths and failures leave the table alone. C16_pointwise: if a [checksums] section loads, every path maps to `typed` of ITS OWN raw value (type:value, or a bare digest typed by length 32/40/64, anything else rejected). C16_roundtrip: write then read is the identity on tables free of ':'. C16_image_monotone: over any add_checksum history a recorded value never changes.",
+    text="C16_chunked/C16_compute: for an abstract streaming hash with the concatenation law, ANY content and ANY chunk size > 0 the read-until-empty loop returns the one-shot digest (chunk size and loop shape come from the source). C16_add/_absolute/_refusal/_invariant: the key is normpath(path), never absolute; absolute paths and failures leave the table alone. C16_pointwise: if a [checksums] section loads, every path maps to `typed` of ITS OWN raw value (type:value, or a bare digest typed by length 32/40/64, anything else rejected). C16_add_computes: add without a value records the one-shot digest of the full content of root/normpath(path). C16_roundtrip: write then read is the identity on tables free of ':'; C16_roundtrip_refuses: a table with ':' in a type or value is refused on read, never read as something else. C16_pointwise_legacy: the same pointwise reading for header-less files with relative keys. C16_image_monotone: over any add_checksum history a recorded value never changes.",
     note="hashlib itself and the INI reader are not modelled (streaming law as explicit hypothesis; the section is an association list fed from the real parser). Legacy header-less path rewriting (_fix_path) is modelled and compared but not part of the pointwise theorem.",
     ref="7/C16")
